@@ -75,6 +75,15 @@ func registerRPC() {
 	natives["(*"+rpcPkg+".Client).CallContext"] = func(m *Machine, c *frame, fn *ssa.Function, a []Value) Value {
 		return m.rpcCall(c, a[0], a[1], a[2], a[3], a[4], a[5], a[6])
 	}
+	natives["(*"+rpcPkg+".Client).GoContext"] = func(m *Machine, c *frame, fn *ssa.Function, a []Value) Value {
+		// asynchronous in gorpc; dispatched at once here (one admissible schedule)
+		m.rpcCall(c, a[0], a[1], a[2], a[3], a[4], a[5], a[6])
+		return Iface{}
+	}
+	natives["(*"+rpcPkg+".Client).Go"] = func(m *Machine, c *frame, fn *ssa.Function, a []Value) Value {
+		m.rpcCall(c, a[0], Iface{}, a[1], a[2], a[3], a[4], a[5])
+		return Iface{}
+	}
 	natives["(*"+rpcPkg+".Client).MultiCall"] = func(m *Machine, c *frame, fn *ssa.Function, a []Value) Value {
 		// MultiCall(ctxs, dests, svc, method, args, replies) []error
 		ctxs := a[1].([]Value)
